@@ -606,6 +606,9 @@ fn spline_calls(ctx: &mut Ctx, r: &mut Rng) {
         let z1 = z0 + r.range_i(-400, 400);
         match build_cal(&spec) {
             Some(any) => {
+                if any.is_wrapped() {
+                    ctx.class("calendar:inside-CalType-container");
+                }
                 with_cal!(&any, c => range_calls(ctx, c, &spec, z0, z1));
             }
             None => ctx.harness_error("calendar build".into()),
@@ -1257,6 +1260,9 @@ impl Prop for C20 {
                 ctx.crumb(&format!("date arithmetic on {}", spec.describe()));
                 match build_cal(&spec) {
                     Some(any) => {
+                        if any.is_wrapped() {
+                            ctx.class("calendar:inside-CalType-container");
+                        }
                         with_cal!(&any, c => date_arithmetic(ctx, c, &spec, &starts, rng));
                     }
                     None => ctx.harness_error("calendar build".into()),
